@@ -562,7 +562,9 @@ theorem scanLoop_records (ts : List (Bytes × (Bytes × Bytes))) (h : ∀ p ∈ 
       have := hp _ stk (recEnd_stream ts hts)
       simp only [List.map_cons, List.flatten_cons]
       unfold scanLoop
-      simp only [run'_eq, this, ih hts f stk hlen]
+      have hne : (p.1 ++ (ts.map (·.1)).flatten).isEmpty = false := by rw [ht]; rfl
+      simp only [run'_eq, this, ih hts f stk hlen, hne]
+      rfl
 
 theorem scanAll_records (auto : Bool) (ts : List (Bytes × (Bytes × Bytes)))
     (h : ∀ p ∈ ts, GoodEnc p) :
@@ -583,7 +585,8 @@ theorem scanAll_records (auto : Bool) (ts : List (Bytes × (Bytes × Bytes)))
       have hloop := scanLoop_records ts hts ((ts.map (·.1)).flatten.length + 1) [] (by omega)
       have hne : ¬ ((p.1 ++ (ts.map (·.1)).flatten).take 5 == [76, 79, 67, 85, 83]) = true := by
         rw [ht]; simp
-      simp only [scanAll, scanFirstAuto, if_true, List.map_cons, List.flatten_cons, hne]
+      have hne0 : (p.1 ++ (ts.map (·.1)).flatten).isEmpty = false := by rw [ht]; rfl
+      simp only [scanAll, scanFirstAuto, if_true, List.map_cons, List.flatten_cons, hne, hne0]
       generalize (ts.map (·.1)).flatten = T at *
       simp [run'_eq, bind_run, attempt_run, hpar, hloop]
 
